@@ -110,6 +110,7 @@ package smtp
 //@   prop C02 C03 C04 C08
 //@   requires connInv(c) && !c.closed && !c.server.LMTP
 //@   modifies c.*, c.bdatPipe.state, c.text.R.pos, c.text.R.iofail, c.text.R.unreadable
+//@   ensures server-kept: c.server == old(c.server)
 //@   ensures inv: connInv(c) && !c.closed
 //@   ensures @C04 refusal-is-one-5xx: c.replies == old(c.replies) + 1 ==> c.finals == old(c.finals) + 1 && c.lastCode >= 500 && c.lastCode <= 599 && c.cbData == old(c.cbData) && c.cbReset == old(c.cbReset) && c.text.R.pos == old(c.text.R.pos)
 //@   ensures @C04 accepted-is-354-plus-one-final: c.replies != old(c.replies) + 1 ==> c.replies == old(c.replies) + 2 && c.finals == old(c.finals) + 1 && c.cbData == old(c.cbData) + 1
@@ -135,6 +136,7 @@ package smtp
 //@   prop C03 C04 C08 C12
 //@   requires connInv(c) && !c.closed
 //@   modifies c.*, c.bdatPipe.state
+//@   ensures server-kept: c.server == old(c.server)
 //@   before Backend.NewSession: @C03 greeting-name-visible: c.helo == domain && domain != ""
 //@   ensures inv: connInv(c) && !c.closed
 //@   ensures @C04 one-reply: c.replies == old(c.replies) + 1
@@ -207,3 +209,153 @@ package smtp
 //@ contract parseArgs(s) (argMap, err)
 //@   prop C11 C19
 //@   fresh argMap if err == nil
+
+// ---------------------------------------------------------------------------------------
+// STARTTLS, AUTH, command dispatch
+// ---------------------------------------------------------------------------------------
+
+//@ contract (*Conn).readLine(c) (line, err)
+//@   prop C19 C04
+//@   requires connWF(c)
+//@   requires @C19 line-limit-active: c.lineLimitReader.LineLimit == c.server.MaxLineLength
+//@   modifies c.text.R.pos, c.text.R.iofail, c.text.R.unreadable
+//@   ensures c.text.R.pos >= old(c.text.R.pos) && (err != nil ==> c.text.R.iofail)
+
+//@ contract (*Conn).handleStartTLS(c)
+//@   prop C03 C08 C09 C10
+//@   requires connInv(c) && !c.closed
+//@   modifies c.*, c.bdatPipe.state, c.session.loggedOut
+//@   ensures server-kept: c.server == old(c.server)
+//@   ensures inv: connInv(c) && !c.closed
+//@   ensures @C10 refused-unless-available: isTLS(old(c)) && old(c.conn) == c.conn || c.server.TLSConfig == nil ==> c.lastCode == 502 && c.replies == old(c.replies) + 1
+//@   ensures @C10 refusal-changes-nothing: c.conn == old(c.conn) ==> c.session == old(c.session) && c.helo == old(c.helo) && c.didAuth == old(c.didAuth) && c.text == old(c.text) && c.fromReceived == old(c.fromReceived) && c.cbLogout == old(c.cbLogout) && c.cbReset == old(c.cbReset)
+//@   ensures @C09,C10 upgrade-forgets-plaintext-state: c.conn != old(c.conn) ==> isTLS(c) && c.helo == "" && !c.didAuth && !c.fromReceived && len(c.recipients) == 0 && c.bdatPipe == nil && c.session == nil
+//@   ensures @C10 upgrade-new-text-conn: c.conn != old(c.conn) ==> c.text != old(c.text) && !wasalloc(c.text)
+//@   ensures @C10 upgrade-new-empty-buffer: c.conn != old(c.conn) ==> !wasalloc(c.text.R) && c.text.R.pos == 0
+//@   ensures @C10 upgrade-new-limiter-over-tls: c.conn != old(c.conn) ==> !wasalloc(c.lineLimitReader) && c.lineLimitReader.R == c.conn
+//@   ensures @C10 upgrade-limiter-reset: c.conn != old(c.conn) ==> c.lineLimitReader.LineLimit == c.server.MaxLineLength && c.lineLimitReader.curLineLength == 0
+//@   ensures @C08 upgrade-logs-out: c.conn != old(c.conn) && old(c.session) != nil ==> old(c.session).loggedOut && c.cbLogout == old(c.cbLogout) + 1
+//@   ensures @C08 no-new-session: c.cbNew == old(c.cbNew)
+
+//@ contract (*Conn).handleAuth(c, arg)
+//@   prop C04 C08 C09 C12
+//@   requires connInv(c) && !c.closed
+//@   requires c.lineLimitReader.LineLimit == c.server.MaxLineLength
+//@   modifies c.didAuth, c.replies, c.finals, c.lastCode, c.cbAuth, c.text.R.pos, c.text.R.iofail, c.text.R.unreadable
+//@   ensures inv: connInv(c) && !c.closed
+//@   ensures @C09 needs-greeting: old(c.helo) == "" ==> c.lastCode == 502 && c.replies == old(c.replies) + 1 && c.didAuth == old(c.didAuth) && c.cbAuth == old(c.cbAuth)
+//@   ensures @C09 at-most-once: old(c.didAuth) && old(c.helo) != "" ==> c.lastCode == 503 && c.replies == old(c.replies) + 1 && c.cbAuth == old(c.cbAuth)
+//@   ensures @C09 insecure-refused: !authAllowedSpec(c) ==> c.cbAuth == old(c.cbAuth) && c.didAuth == old(c.didAuth) && c.replies == old(c.replies) + 1 && c.lastCode >= 500
+//@   ensures @C09 success-only-with-235: c.didAuth != old(c.didAuth) ==> c.didAuth && c.lastCode == 235 && c.cbAuth > old(c.cbAuth)
+//@   ensures @C04 final-reply-or-io-failure: c.finals == old(c.finals) + 1 || c.text.R.iofail
+//@   loop 1:
+//@     invariant c.didAuth == old(c.didAuth) && c.finals == old(c.finals) && c.cbAuth >= old(c.cbAuth)
+//@     invariant sasl != nil && sasl.conn == c && authAllowedSpec(c) && c.helo != "" && !c.didAuth
+
+// ---------------------------------------------------------------------------------------
+// LMTP status collector
+// ---------------------------------------------------------------------------------------
+
+//@ contract (*Conn).createStatusCollector(c) (status)
+//@   prop C13
+//@   nooverflow per-recipient counters are bounded by the number of recipients (not proved)
+//@   requires c != nil
+//@   fresh status
+//@   ensures one-slot-per-recipient: status != nil && status.statusMap != nil && len(status.status) == len(c.recipients)
+//@   ensures every-recipient-has-a-channel: forall i :: 0 <= i && i < len(c.recipients) ==> has(status.statusMap, c.recipients[i]) && status.statusMap[c.recipients[i]] != nil
+//@   loop 1:
+//@     invariant rcptCounts != nil && status != nil && !wasalloc(status) && !wasalloc(rcptCounts) && status.statusMap != nil && !wasalloc(status.statusMap) && status.statusMap != rcptCounts
+//@     invariant len(status.status) == 0 && cap(status.status) == len(c.recipients) && !wasalloc(status.status)
+//@     invariant forall j :: 0 <= j && j <= rangeindex ==> has(rcptCounts, c.recipients[j])
+//@     invariant rangeindex < len(c.recipients) && (forall a: string :: has(rcptCounts, a) ==> rcptCounts[a] <= rangeindex + 1)
+//@   loop 2:
+//@     invariant rcptCounts != nil && status != nil && !wasalloc(status) && !wasalloc(rcptCounts) && status.statusMap != nil && !wasalloc(status.statusMap) && status.statusMap != rcptCounts
+//@     invariant len(status.status) == 0 && cap(status.status) == len(c.recipients) && !wasalloc(status.status)
+//@     invariant forall j :: 0 <= j && j < len(c.recipients) ==> has(rcptCounts, c.recipients[j])
+//@     invariant forall a: string :: itvisited(a) ==> has(status.statusMap, a) && status.statusMap[a] != nil
+//@   loop 3:
+//@     invariant status != nil && !wasalloc(status) && status.statusMap != nil && !wasalloc(status.status)
+//@     invariant forall j :: 0 <= j && j < len(c.recipients) ==> has(status.statusMap, c.recipients[j]) && status.statusMap[c.recipients[j]] != nil
+//@     invariant len(status.status) == rangeindex + 1 && rangeindex < len(c.recipients)
+
+//@ contract (*statusCollector).SetStatus(s, rcptTo, err)
+//@   prop C13
+//@   maypanic
+//@   requires s != nil
+//@   modifies chan(s.statusMap[rcptTo])
+
+//@ contract (*statusCollector).fillRemaining(s, err)
+//@   prop C13
+//@   requires s != nil
+
+//@ contract (*Conn).handlePanic(c, err, status)
+//@   prop C13 C19
+//@   requires c != nil && c.server != nil && c.conn != nil && c.server.ErrorLog != nil
+
+// ---------------------------------------------------------------------------------------
+// BDAT
+// ---------------------------------------------------------------------------------------
+
+//@ contract (*Conn).discardChunk(c, size)
+//@   prop C05 C19
+//@   requires connWF(c) && 0 <= size && size <= 4294967295
+//@   modifies c.lineLimitReader.LineLimit, c.text.R.pos, c.text.R.iofail, c.text.R.unreadable
+//@   ensures @C05 chunk-consumed: c.text.R.pos == old(c.text.R.pos) + size || c.text.R.iofail
+//@   ensures @C19 limit-restored: c.lineLimitReader.LineLimit == c.server.MaxLineLength
+//@   ensures c.text.R.pos >= old(c.text.R.pos)
+
+//@ contract (*Conn).handleBdat(c, arg)
+//@   prop C03 C04 C05 C06 C07 C08 C19
+//@   nooverflow Conn.bytesReceived + size: with MaxMessageBytes == 0 this needs fewer than 2^63 octets in one transaction
+//@   requires connInv(c) && !c.closed && !c.server.LMTP
+//@   requires c.lineLimitReader.LineLimit == c.server.MaxLineLength
+//@   modifies c.*, c.bdatPipe.state, c.bdatPipe.written, c.session.loggedOut, c.text.R.pos, c.text.R.iofail, c.text.R.unreadable, c.lineLimitReader.LineLimit, chan(c.dataResult)
+//@   ensures server-kept: c.server == old(c.server)
+//@   before (*io.PipeWriter).Close: @C07,C05 clean-eof-only-after-complete-last-chunk: last && lrOf(chunk).N == 0
+//@   ensures inv: connInv(c)
+//@   ensures @C19,C05 line-limit-restored: c.lineLimitReader.LineLimit == c.server.MaxLineLength && c.lineLimitReader == old(c.lineLimitReader)
+//@   ensures @C05 framing: bdatDeclaredOK(arg) ==> c.text.R.pos == old(c.text.R.pos) + bdatDeclared(arg) || c.text.R.iofail
+//@   ensures @C05 nothing-read-for-malformed-command: !bdatDeclaredOK(arg) ==> c.text.R.pos == old(c.text.R.pos)
+//@   ensures @C04 one-final-reply: c.finals == old(c.finals) + 1 && c.replies == old(c.replies) + 1
+//@   ensures @C03 out-of-order-refused: !old(c.fromReceived) || len(old(c.recipients)) == 0 ==> c.lastCode >= 500 && c.bdatPipe == nil && c.cbData == old(c.cbData)
+//@   ensures @C03 failed-chunk-ends-transaction: c.lastCode != 250 && old(c.fromReceived) && len(old(c.recipients)) > 0 && bdatDeclaredOK(arg) && !c.closed ==> !c.fromReceived && len(c.recipients) == 0 && c.bdatPipe == nil
+//@   ensures @C07 old-pipe-not-left-open: old(c.bdatPipe) != nil && c.bdatPipe != old(c.bdatPipe) ==> old(c.bdatPipe).state != 0
+//@   ensures @C06 accumulated-size-within-limit: c.server.MaxMessageBytes > 0 ==> c.bytesReceived <= c.server.MaxMessageBytes
+//@   ensures text-kept: c.text == old(c.text) && c.text.R == old(c.text.R)
+
+// ---------------------------------------------------------------------------------------
+// Command dispatch and the command loop
+// ---------------------------------------------------------------------------------------
+
+//@ contract (*Conn).handle(c, cmd, arg)
+//@   prop C03 C04 C08 C19
+//@   requires connInv(c) && !c.closed && !c.server.LMTP
+//@   requires c.lineLimitReader.LineLimit == c.server.MaxLineLength && c.server.ErrorLog != nil
+//@   modifies c.*, c.bdatPipe.state, c.bdatPipe.written, c.session.loggedOut, c.text.R.pos, c.text.R.iofail, c.text.R.unreadable, c.lineLimitReader.LineLimit, chan(c.dataResult), c.recipients[**]
+//@   ensures server-kept: c.server == old(c.server)
+//@   ensures inv: connInv(c)
+//@   ensures @C19 line-limit-active-after-every-command: c.text == old(c.text) ==> c.lineLimitReader.LineLimit == c.server.MaxLineLength
+//@   ensures @C19 line-limit-active-after-upgrade: c.lineLimitReader.LineLimit == c.server.MaxLineLength
+//@   ensures @C04 at-least-one-final-reply-or-io-failure: c.finals >= old(c.finals) + 1 || c.text.R.iofail
+//@   ensures @C08 no-session-lost: c.cbNew - c.cbLogout == (c.session != nil ? 1 : 0)
+//@   ensures @C19 error-count: c.errCount == old(c.errCount) || c.errCount == old(c.errCount) + 1
+
+//@ contract (*Conn).greet(c)
+//@   prop C04
+//@   requires c != nil && c.server != nil && c.conn != nil && c.text != nil
+//@   modifies c.replies, c.finals, c.lastCode
+//@   ensures c.replies == old(c.replies) + 1
+
+//@ contract (*Server).handleConn(s, c) (err)
+//@   prop C03 C04 C07 C08 C19 C20
+//@   requires s != nil && c != nil && c.server == s && connInv(c) && !c.closed && !s.LMTP && s.ErrorLog != nil
+//@   requires c.session == nil && c.cbNew == c.cbLogout && s.conns != nil
+//@   requires c.lineLimitReader.LineLimit == s.MaxLineLength
+//@   modifies c.*, s.conns[*], *.Session.loggedOut, *.io.PipeWriter.state, *.io.PipeWriter.written, *.bufio.Reader.pos, *.bufio.Reader.iofail, *.bufio.Reader.unreadable, *.lineLimitReader.LineLimit, *chan, *elems string
+//@   ensures @C08 closed-at-exit: c.closed && c.session == nil
+//@   ensures @C08 every-session-logged-out: c.cbNew == c.cbLogout
+//@   ensures @C07 no-transfer-left-open: c.bdatPipe == nil
+//@   loop 1:
+//@     invariant connInv(c) && c.server == s && s.conns != nil && !s.LMTP && s.ErrorLog != nil
+//@     invariant @C19 line-limit-active: c.lineLimitReader.LineLimit == s.MaxLineLength
+//@     invariant @C08 no-session-lost: c.cbNew - c.cbLogout == (c.session != nil ? 1 : 0)
